@@ -20,12 +20,14 @@ theorem toInt_ofInt32 (i : Int) (h1 : -2147483648 ≤ i) (h2 : i ≤ 2147483647)
   omega
 
 /-- value of `_to_positive_index` for every int32 index, as natural-number arithmetic -/
-theorem posIndex32_spec (n : Nat) (i : Int) (hn : n < 2147483648) (h1 : -2147483648 ≤ i) (h2 : i ≤ 2147483647) :
+theorem posIndex32_spec32 (n : Nat) (i : Int) (hn : n < 4294967296) (h1 : -2147483648 ≤ i) (h2 : i ≤ 2147483647) :
     posIndex32 n (BitVec.ofInt 32 i) =
       if 0 ≤ i then (if i < n then .ok i.toNat else .err .indexError)
       else if i = -(n : Int) - 1 then .crash
       else .ok ((i + n) % 4294967296).toNat := by
   unfold posIndex32 toPositiveIndex
+  have hbig : ¬ n ≥ 4294967296 := by omega
+  simp only [hbig, if_false]
   have hslt : (BitVec.ofInt 32 i).slt 0#32 = decide (i < 0) := by
     simp [BitVec.slt, toInt_ofInt32 i h1 h2]
   rw [hslt]
@@ -67,6 +69,13 @@ theorem posIndex32_spec (n : Nat) (i : Int) (hn : n < 2147483648) (h1 : -2147483
       simp [hlt, this, toNat_ofInt32]
       omega
     · simp [hlt]
+
+theorem posIndex32_spec (n : Nat) (i : Int) (hn : n < 2147483648) (h1 : -2147483648 ≤ i) (h2 : i ≤ 2147483647) :
+    posIndex32 n (BitVec.ofInt 32 i) =
+      if 0 ≤ i then (if i < n then .ok i.toNat else .err .indexError)
+      else if i = -(n : Int) - 1 then .crash
+      else .ok ((i + n) % 4294967296).toNat :=
+  posIndex32_spec32 n i (by omega) h1 h2
 
 /-! ## Canonical form and the cached maximum -/
 
